@@ -45,6 +45,12 @@ Theorem C16_registry :
   && forallb (fun p => match snd p with [] => true | _ => false end) hidden_inputs = true.
 Proof. vm_compute. reflexivity. Qed.
 
+(* every cached function is reached by resize and by clear, at its defining module (the translator refuses a re-wrap through an imported name), and
+   every second handle on a cached function -- a 'from ._x import f' anywhere in the package -- is pointed to the new object by set_cache_maxsize *)
+Theorem C16_registry_complete :
+  forallb (fun x => mem x resized) decorated && forallb (fun x => mem x cleared) decorated && forallb (fun x => mem x rebound) aliases = true.
+Proof. vm_compute. reflexivity. Qed.
+
 (* non-vacuity: a concrete history with a hit, an eviction, a clear and a re-wrap *)
 Example C16_nonvacuous :
   snd (run nat nat Nat.eqb (fun i k => 10 * i + k) [fresh nat nat (Some 1); fresh nat nat None]
@@ -57,3 +63,4 @@ Print Assumptions C16_history_independent.
 Print Assumptions C16_no_cross_talk.
 Print Assumptions C16_size_bounded.
 Print Assumptions C16_registry.
+Print Assumptions C16_registry_complete.
